@@ -147,6 +147,17 @@ Arguments process_entry_at {K} kcmp filesz fo m.
 Arguments walk {K} kcmp fuel filesz fo m acc.
 Arguments records_out {K} kcmp mk lo hi sz tvs.
 
+(* An entry whose construction fails (FixedStruct::new returns Err for an entry whose bytes are
+   all 0xFF) still takes part in the ordering, under the time value its bytes decode to.  When
+   the walk reaches it, process_entry_at returns Err((Some(fo_next), _)) and the driver loop
+   continues at fo_next: nothing is sent for that entry.  `bad fo` = the entry at fo is such an
+   entry. *)
+Definition records_sent (bad : N -> bool) (r : walk_result) : walk_result :=
+  match r with
+  | WDone l => WDone (filter (fun fo => negb (bad fo)) l)
+  | WOutOfFuel l => WOutOfFuel (filter (fun fo => negb (bad fo)) l)
+  end.
+
 (* K1: the map keyed by the time value only (code before the fix) *)
 Definition K1 : Type := tv.
 Definition k1_cmp : K1 -> K1 -> comparison := tv_cmp.
